@@ -122,6 +122,26 @@ def single_octet_entails(facts, goal):
     return True
 
 
+def single_octet_failures(facts, goal):
+    """[(octet value, octet atom)] for which the facts about that octet hold and the single-octet goal fails"""
+    from .terms import evaluate
+    go, other = _octet_leaves(goal)
+    if other or len(go) != 1:
+        return []
+    (root, k), = go
+    sel = [f for f in facts if _octet_leaves(f) == (go, False)]
+    atom = T("idx", sym(root, ty="bytes"), C(k), ty="int")
+    out = []
+    for v in range(256):
+        env = {root: bytes(k) + bytes([v])}
+        try:
+            if all(bool(evaluate(f, env)) for f in sel) and not bool(evaluate(goal, env)):
+                out.append((v, atom))
+        except Exception:
+            return []
+    return out
+
+
 def mod_axioms(facts):
     """(A % c) == 0 with a positive constant c: A is a multiple of c, so A <= 0 or A >= c (the only consequence the
     linear procedure can use; it is what makes `remaining % record_size == 0` and `remaining > 0` give one whole record)"""
@@ -415,7 +435,16 @@ def prove(facts, goal, max_cases=None, _lazy=False, _depth=0, _fsplit=0, _univer
         return "unknown", "counter-model involves a summarised loop variable (no inductive invariant inferred)"
     if st == "refutable":
         # a REFUTED verdict needs a concrete input: every evaluable fact true, goal false
-        env = realise(_universe if len(_universe) >= len(facts) else facts, goal, m)
+        uni = _universe if len(_universe) >= len(facts) else facts
+        env = realise(uni, goal, m)
+        if env is None:
+            # a goal about one octet: try the octet values that falsify it under the octet's own facts
+            for v_, atom_ in single_octet_failures(uni, goal)[:8]:
+                m2 = dict(m or {})
+                m2[atom_] = v_
+                env = realise(uni, goal, m2)
+                if env is not None:
+                    break
         if env is None:
             return "unknown", "counter-model of the linear abstraction could not be realised by a concrete input: " + \
                    ", ".join(f"{show(k)[:30]}={v}" for k, v in list(m.items())[:5])
@@ -1053,6 +1082,14 @@ def realise(facts, goal, model, tries=400, seed=0):
                 base[a.a[1].a[0]] = int(v) // c
             elif o == ">>" and c >= 0:
                 base[a.a[1].a[0]] = int(v) << c
+    # buffers whose length the model does not fix: candidate lengths are taken from the integer constants of the facts
+    free_len = {n for n in bufs if n not in blen}
+    consts = set()
+    for t in terms:
+        for s_ in subterms(t):
+            if s_.k == "const" and isinstance(s_.a[0], int) and not isinstance(s_.a[0], bool) and 0 <= s_.a[0] <= 70000:
+                consts.add(s_.a[0])
+    len_cands = sorted({c + d for c in consts for d in (0, 1, -1, 2) if c + d >= 0})[:80] or [0]
     for n in bufs:
         blen.setdefault(n, 0)
     # atoms that are bit-exact functions of buffer octets (masks, shifts, multi-octet fields): assign those bits
@@ -1094,7 +1131,9 @@ def realise(facts, goal, model, tries=400, seed=0):
                 env[n] = 0 if k == 0 else rng.choice([0, 0, 1, 2, 3, 4, 7, 8, 255, 256, 65535])
         for n in bufs:
             ln = blen.get(n, 0)
-            if k > tries // 2:
+            if n in free_len and k > 0:
+                ln = len_cands[(k - 1) % len(len_cands)]
+            elif k > tries // 2:
                 ln = max(0, ln + rng.choice([0, 0, 1, 2, -1]))
             bs = bytearray(ln)
             if k > 0:
@@ -1111,7 +1150,9 @@ def realise(facts, goal, model, tries=400, seed=0):
         env = attempt(k)
         g = _eval_bool(goal, env)
         if g is None:
-            return None        # the goal itself cannot be evaluated: nothing to realise
+            # not evaluable under this assignment (e.g. an index beyond a buffer that is still too short); a goal that is
+            # never evaluable simply yields no witness
+            continue
         if g:
             continue
         ok = True
